@@ -71,7 +71,7 @@ def sevnum(an, sev):
 
 def record_fick(data, want=("steps", "dec", "chk", "trace")):
     fk, an, tr = _imp()
-    out = {"parse": "ok", "steps": [], "step_exc": "", "dec": {"ok": False, "exc": "not-run"},
+    out = {"parse": "ok", "steps": [], "step_exc": "", "dec": {"ok": False, "exc": "not-run", "reask_differs": False},
            "run": {"ok": False, "ev": [], "exc": "not-run", "res": {"k": "mark"}, "static": [], "has_static": False},
            "chk": {"ran": False, "ok": False, "exc": "", "sev": 0, "nfind": 0, "find_ok": True, "maxfind": 0,
                    "json_ok": False, "sevname_ok": False, "loader_ran": False, "loader_ok": True, "loader_why": ""},
@@ -97,12 +97,22 @@ def record_fick(data, want=("steps", "dec", "chk", "trace")):
     src = None
     if "dec" in want:
         p2 = fk.Pickled.load(data)
-        try:
-            tree = p2.ast
-            src = ast.unparse(tree)
-            out["dec"] = {"ok": True, "exc": ""}
-        except BaseException as e:  # noqa: BLE001
-            out["dec"] = {"ok": False, "exc": type(e).__name__}
+
+        def ask():
+            try:
+                return (True, ast.unparse(p2.ast))
+            except BaseException as e:  # noqa: BLE001
+                return (False, type(e).__name__)
+        # the same object is asked twice: a program it hands out on ANY request is a decompilation of these bytes
+        # and is judged (a refusal that turns into a program when asked again is not a refusal)
+        a1 = ask()
+        a2 = ask()
+        use = a2 if (a2[0] and a2 != a1) else a1
+        if use[0]:
+            src = use[1]
+            out["dec"] = {"ok": True, "exc": "", "reask_differs": a1 != a2}
+        else:
+            out["dec"] = {"ok": False, "exc": use[1], "reask_differs": a1 != a2}
         if src is not None:
             r = refvm.run_decompiled(src)
             out["run"] = {"ok": r["ok"], "ev": r["ev"], "exc": r.get("exc", ""),
@@ -135,16 +145,36 @@ def record_fick(data, want=("steps", "dec", "chk", "trace")):
                 real_loads = _pk.loads
                 _pk.loads = lambda *a, **k: "NOT-EXECUTED"
                 c["loader_ran"] = True
+                order = [an.Severity.LIKELY_SAFE, an.Severity.POSSIBLY_UNSAFE, an.Severity.SUSPICIOUS, an.Severity.LIKELY_UNSAFE,
+                         an.Severity.LIKELY_OVERTLY_MALICIOUS, an.Severity.OVERTLY_MALICIOUS]
+                import os
+                import tempfile
+                jp = os.path.join(tempfile.gettempdir(), f"verif_loader_report_{os.getpid()}.json")
                 try:
-                    fickling.load(io.BytesIO(data))
-                    c["loader_ok"], c["loader_why"] = False, "loader-accepts-what-the-check-flags"
-                except UnsafeFileError as e:
-                    if e.info != d:
-                        c["loader_ok"], c["loader_why"] = False, "loader-report-differs"
-                except BaseException as e:  # noqa: BLE001
-                    c["loader_ok"], c["loader_why"] = False, "loader-raised-" + type(e).__name__
+                    # every threshold below the verdict refuses; the error (and the report file, when asked for) carry the
+                    # same content as the summary of the check
+                    for t in sorted({0, 3, c["sev"] - 1} & set(range(c["sev"]))):
+                        kw = {} if t == 0 else {"max_acceptable_severity": order[t]}
+                        if t == c["sev"] - 1:
+                            if os.path.exists(jp):
+                                os.remove(jp)
+                            kw["json_output_path"] = jp
+                        try:
+                            fickling.load(io.BytesIO(data), **kw)
+                            c["loader_ok"], c["loader_why"] = False, f"loader-accepts-what-the-check-flags-t{t}"
+                        except UnsafeFileError as e:
+                            if e.info != d:
+                                c["loader_ok"], c["loader_why"] = False, f"loader-report-differs-t{t}"
+                            elif "json_output_path" in kw and json.load(open(jp)) != json.loads(json.dumps(d)):
+                                c["loader_ok"], c["loader_why"] = False, f"loader-json-report-differs-t{t}"
+                        except BaseException as e:  # noqa: BLE001
+                            c["loader_ok"], c["loader_why"] = False, "loader-raised-" + type(e).__name__
+                        if not c["loader_ok"]:
+                            break
                 finally:
                     _pk.loads = real_loads
+                    if os.path.exists(jp):
+                        os.remove(jp)
         except BaseException as e:  # noqa: BLE001
             c["exc"] = type(e).__name__
     if "trace" in want and out["dec"]["ok"]:
